@@ -1,5 +1,6 @@
 (* C11 - stacks (static/wfstack.h, static/lfstack.h): the memory chain from the head spells the abstract LIFO stack in every reachable state, for every schedule; lfstack: LIFO chain invariant under the pop mutex with node reuse
    Property theorems only: each is the full statement, closed by `exact`, followed by Print Assumptions. *)
+Require Import Urcu.Base.Lin.
 Require Import Coq.Lists.List.
 Require Import Coq.NArith.NArith.
 Require Import Urcu.Base.MachE.
@@ -10,6 +11,7 @@ Require Import Urcu.Gen.Generated.
 Require Import Urcu.Base.MachD.
 Require Import Urcu.Lfs.Lfs.
 Require Import Urcu.Lfs.LfsProof.
+Require Import Urcu.Lfs.LfsLin.
 Import ListNotations.
 Local Open Scope N_scope.
 
@@ -49,4 +51,19 @@ Theorem C11_lfstack_pop_takes_top :
     lcur (TS s t) = O_Cas h nx -> M s LHead = h -> exists l : list N, stk = h :: l /\ chainm (M s) nx l.
 Proof. exact (@Urcu.Lfs.LfsProof.pop_takes_top). Qed.
 Print Assumptions C11_lfstack_pop_takes_top.
+
+(* lfstack model (push, mutex-protected pop / pop_all, empty, reuse of popped nodes), any number of threads and programs over distinct fresh nodes, every schedule: the history - push with its was-non-empty answer, pop (top or NULL), pop_all (whole stack, by its top node), empty - is accepted by the LIFO automaton; linearisation points: successful head cmpxchg of push / pop, head load of a pop that sees NULL, head exchange of pop_all, head load of empty *)
+Theorem C11_lfstack_linearizable_lifo :
+    forall threads : nat -> list lop,
+    (forall t : nat, NoDup (pushes (threads t)) /\ ~ In 0 (pushes (threads t))) ->
+    (forall (t u : nat) (x : N), t <> u -> In x (pushes (threads t)) -> ~ In x (pushes (threads u))) ->
+    forall cs : list choice,
+    exists (a' : ast) (L : list (op sop N)),
+    runl a0 (gtrace cs (init_state threads, [])) = Some (a', L) /\
+    legal sop N (list N) lspec [] L /\
+    (forall t : nat,
+    tops sop N t L =
+    hcomp sop N t None (gtrace cs (init_state threads, [])) ++ pre sop N (pm sop N (list N) a' t)).
+Proof. exact (@Urcu.Lfs.LfsLin.lfs_linearizable). Qed.
+Print Assumptions C11_lfstack_linearizable_lifo.
 
